@@ -54,9 +54,12 @@ def main():
     else:
         for d in sorted(glob.glob(os.path.join(HERE, "mutants", "C*"))):
             prop = os.path.basename(d)
-            if args and prop not in args:
+            names = [a for a in args if not (len(a) == 3 and a[0] == "C" and a[1:].isdigit())]
+            if args and prop not in args and not names:
                 continue
             for p in sorted(glob.glob(os.path.join(d, "*.patch"))):
+                if names and os.path.basename(p)[:-6] not in names:
+                    continue
                 jobs.append((prop, p))
     rows = []
     for prop, p in jobs:
